@@ -259,7 +259,7 @@ package jet
 //@ func indirectInterface
 //@   props C10 C07 C06 C12
 //@ func indexArg
-//@   props C10 C07 C06 C12
+//@   props C10 C07 C06 C12 C17
 //@   ensures [index-is-in-range-or-an-error] result1 == nil ==> 0 <= result0 && result0 < cap
 //@ func buildCache
 //@   props C10 C06 C12
@@ -271,14 +271,14 @@ package jet
 //@   ensures [entries-are-private-copies] {C06} forallT(k, "string", has(cache, k) && (!old(has(cache, k)) || cache[k] != old(cache[k])) ==> fresh(cache[k]) && len(cache[k]) > len(parent))
 //@   ensures [shallowest-definition-wins] {C06} forallT(k, "string", old(has(cache, k)) ==> has(cache, k) && len(cache[k]) <= len(old(cache[k])))
 //@ func resolveIndex
-//@   props C10 C11 C06 C12
+//@   props C10 C11 C06 C12 C17
 //@   modifies mapsof map[reflect.Type]map[string][]int, ghost Held
 //@   ensures [lock-released] Held == old(Held)
 //@   loop 0 invariant true
 //@   callsite fieldByIndex 0 requires [field-paths-come-from-the-cache-of-the-values-type] {C06} has(cachedStructsFieldIndex, RvTypeOf(v)) && has(cachedStructsFieldIndex[RvTypeOf(v)], caller.key) && index == cachedStructsFieldIndex[RvTypeOf(v)][caller.key]
 //@   callsite buildCache 0 requires [the-cache-is-built-for-the-values-type] {C06} typ == lastret("(reflect.Value).Type", 0) && fresh(cache) && len(parent) == 0
 //@ func fieldByIndex
-//@   props C06 C12 C10 C11
+//@   props C06 C12 C10 C11 C17
 //@   loop 0 invariant true
 //@ func getRanger
 //@   props C10 C05 C12
@@ -483,6 +483,7 @@ package jet
 //@   ensures [runtime-valid-after-isset] RtX(a.runtime)
 //@   callsite (*Runtime).isSet 0 requires [isset-examines-the-indexed-argument] {C17} node == a.args.Exprs[caller.argumentIndex - ite(Implicit(a), 1, 0)] && NTF(node) != NodeUnderscore
 //@   callsite (*Runtime).isSet count 1
+//@   check [set-ness-of-an-expression-argument-is-decided-by-runtime-isset] {C17} 0 <= argumentIndex - ite(Implicit(a), 1, 0) && argumentIndex - ite(Implicit(a), 1, 0) < len(a.args.Exprs) && !(argumentIndex == 0 && Implicit(a)) && NTF(a.args.Exprs[argumentIndex - ite(Implicit(a), 1, 0)]) != NodeUnderscore ==> ncalls("(*Runtime).isSet") == 1 && result == lastret("(*Runtime).isSet", 0)
 //@ func (*Arguments).Get
 //@   props C14 C18 C12
 //@   requires a != nil && RtOK(a.runtime) && WFArgs(a.args)
@@ -519,7 +520,7 @@ package jet
 //@   exsures [runtime-valid-on-panic] RtX(st)
 
 //@ func (*Runtime).executeYieldBlock$1
-//@   props C08
+//@   props C07 C08 C13 C12
 //@   refines field:Runtime.content
 //@   requires myscope != nil && content != nil && WFL(content)
 //@   callsite (*Runtime).executeList * requires st.scope == myscope && st.content == mycontent
@@ -531,6 +532,8 @@ package jet
 //@   modifies @Interp
 //@   loop 0 entry [every-yield-argument-is-bound] {C08} i == 0
 //@   loop 1 entry [every-declared-parameter-gets-its-default-unless-bound] {C08} i == 0
+//@   loop 1 step [after-its-turn-every-declared-parameter-is-bound-in-the-parameter-scope] {C08} has(st.scope.variables, blockParam.List[prev(i)].Identifier)
+//@   callsite (*Runtime).resolve count 0
 //@   check [every-declared-parameter-is-bound] {C08} !panicking() && (len(blockParam.List) > 0 || len(yieldParam.List) > 0) ==> visits("(*Runtime).newScope", 0) == 1
 //@   callsite (*Runtime).executeList 2 requires [block-body-runs-with-the-yield-context] {C08} list == caller.block.List && st.context == lastret("(*Runtime).evalPrimaryExpressionGroup", 0)
 //@   callsite (*Runtime).executeList 3 requires [block-body-runs-in-the-parameter-scope] {C08} list == caller.block.List && st.context == old(st.context) && ite(len(caller.blockParam.List) > 0 || len(caller.yieldParam.List) > 0, st.scope.parent == old(st.scope), st.scope == old(st.scope))
